@@ -1059,7 +1059,7 @@ def convpipe_family(tier, seed):
     tag(user_coercer, "user_coercer")
 
     rnd = random.Random(seed)
-    NAMES = ["a", "b", "c", "x"]
+    NAMES = ["a", "b", "c", "x", "z"]
 
     def make_models(cfg, uid):
         ns = {}
@@ -1122,6 +1122,8 @@ def convpipe_family(tier, seed):
         dst_names = rnd.sample(["a", "b", "c"], n_dst)
         req = [(n, False) for n in dst_names]
         opt = [("d", True)] if rnd.random() < 0.4 else []
+        if rnd.random() < 0.4:
+            opt.append(("z", True))      # an optional destination field AFTER a possibly skipped one
         cfg = {"src_fields": src_fields, "dst_fields": req + opt, "params": [], "recipe": []}
         if rnd.random() < 0.35:
             cfg["inner"] = {"src_fields": rnd.sample(["a", "p", "q"], rnd.randint(1, 3)),
@@ -1155,7 +1157,7 @@ def convpipe_family(tier, seed):
                 pos = rnd.sample([p for p in cfg["params"] if p not in kwonly], rnd.randint(0, min(1, len([p for p in cfg["params"] if p not in kwonly]))))
                 items.append({"k": "func", "dst": dst, "kwonly": kwonly, "pos": pos, "level": level})
             elif kind == "allow":
-                items.append({"k": "allow", "dst": "d", "level": "top"})
+                items.append({"k": "allow", "dst": rnd.choice(["d", "d", "z"]), "level": "top"})
         cfg["recipe"] = items
         return cfg
 
@@ -1180,6 +1182,10 @@ def convpipe_family(tier, seed):
          "recipe": [{"k": "link", "src": "zz", "dst": "c", "level": "top"}, {"k": "const", "dst": "c", "value": 5, "level": "top"}]},
     ]
     fixed += [
+        {"src_fields": ["a", "z"], "dst_fields": [("a", False), ("d", True), ("z", True)], "params": [],
+         "recipe": [{"k": "allow", "dst": "d", "level": "top"}]},
+        {"src_fields": ["a", "c"], "dst_fields": [("a", False), ("d", True), ("z", True)], "params": ["z"],
+         "recipe": [{"k": "allow", "dst": "d", "level": "top"}]},
         {"src_fields": ["q"], "dst_fields": [("a", False)], "params": ["b", "c", "x"],
          "recipe": [{"k": "link_re", "alts": ["b", "c", "x"], "dst": "a", "level": "top"}]},
         {"src_fields": ["x", "b"], "dst_fields": [("a", False)], "params": ["c"],
